@@ -370,6 +370,8 @@ fn run_workload_x(sink: &Arc<Mutex<Sink>>, w: Arc<Workload>, origin: &str, sched
     let sink2 = sink.clone();
     let res = std::panic::catch_unwind(std::panic::AssertUnwindSafe(move || {
         runner.run(move || {
+            // simulated clock of the instrumented build: fresh jump sequence per execution
+            verif_shim::vtime::reseed(w.hash() ^ verif_shim_exec_counter());
             let events = scenario::run_execution(w.clone());
             sink2.lock().unwrap().on_execution(&events);
         })
@@ -382,6 +384,11 @@ fn run_workload_x(sink: &Arc<Mutex<Sink>>, w: Arc<Workload>, origin: &str, sched
             Err(msg)
         }
     }
+}
+
+fn verif_shim_exec_counter() -> u64 {
+    static N: std::sync::atomic::AtomicU64 = std::sync::atomic::AtomicU64::new(0);
+    N.fetch_add(1, std::sync::atomic::Ordering::Relaxed).wrapping_mul(0x9e3779b97f4a7c15)
 }
 
 fn new_sink() -> Arc<Mutex<Sink>> {
@@ -496,6 +503,7 @@ fn worker(seed: u64, from: u64, to: u64, tier: &str) -> (Value, i32) {
         "abstract_calls_seen_2plus": s.oracle.m.values().filter(|x| x.count >= 2).count(),
         "abstract_calls_seen_10plus": s.oracle.m.values().filter(|x| x.count >= 10).count(),
         "samples": st.samples,
+        "sim_clock_reads": verif_shim::vtime::stats().0, "sim_clock_jumps_ge_1s": verif_shim::vtime::stats().1,
         "violation": s.violation,
         "failing_run": failing_run,
         "harness_error": harness_err,
@@ -634,6 +642,7 @@ fn cold_report(sink: &Arc<Mutex<Sink>>, seed: u64, index: u64, tier: &str, harne
         "abstract_calls_seen_2plus": s.oracle.m.values().filter(|x| x.count >= 2).count(),
         "abstract_calls_seen_10plus": s.oracle.m.values().filter(|x| x.count >= 10).count(),
         "samples": [],
+        "sim_clock_reads": verif_shim::vtime::stats().0, "sim_clock_jumps_ge_1s": verif_shim::vtime::stats().1,
         "violation": s.violation,
         "failing_run": null,
         "harness_error": harness_err,
@@ -1115,7 +1124,7 @@ fn cmd_driver(args: &[String]) -> i32 {
     let first_bad: Option<u64> = results.iter().find(|(_, (c, _))| *c != 0).map(|(n, _)| *n);
     // ---- merge (deterministic: by chunk index; chunks after the first bad one are ignored)
     let mut tot: BTreeMap<&str, u64> = BTreeMap::new();
-    let keys = ["soak_executions", "soak_calls", "cold_executions", "runs", "executions", "checked_executions", "sched_steps", "context_switches", "calls", "panicked_calls", "overlapping_pairs", "late_spawns", "early_exits", "multi_thread_execs", "distinct_all_count", "abstract_calls", "abstract_calls_seen_2plus", "abstract_calls_seen_10plus"];
+    let keys = ["sim_clock_reads", "sim_clock_jumps_ge_1s", "soak_executions", "soak_calls", "cold_executions", "runs", "executions", "checked_executions", "sched_steps", "context_switches", "calls", "panicked_calls", "overlapping_pairs", "late_spawns", "early_exits", "multi_thread_execs", "distinct_all_count", "abstract_calls", "abstract_calls_seen_2plus", "abstract_calls_seen_10plus"];
     let mut first_use = [0u64; 4];
     let mut by_sched: BTreeMap<String, u64> = BTreeMap::new();
     let mut by_threads: BTreeMap<String, u64> = BTreeMap::new();
